@@ -4,4 +4,6 @@ ID="$1"; P="$2"; T="${3:-quick}"
 git -C /repo apply "$P" || { echo "patch does not apply"; exit 2; }
 cd /verif && ./check "$ID" "$T" 2>&1 | grep -v "^KNOWN-FINDING" | cut -c1-400 | tail -8
 git -C /repo checkout -- .
+# the harness binary now contains the mutant: rebuild it against the clean tree
+(cd /verif/harness && cargo build --release --offline -q 2>/dev/null)
 git -C /repo status --short | head -3
